@@ -37,7 +37,10 @@ def sim_obligations(chi_sym, make_model, label):
     model = m._model
     states, consts = mech.expected_parameter_names(model)
     names = [q for q in m._parameter_names]
-    res.append(('order.names', list(names) == states + consts and m.n_parameters() == len(states) + len(consts) and m.parameters() == states + consts,
+    # "alphabetically": the case-sensitive order of sorted() or a case-insensitive one -- what matters is that states come first and that the
+    # i-th vector entry reaches the i-th published name (order.state-and-const below)
+    folded = sorted(states, key=str.lower) + sorted(consts, key=str.lower)
+    res.append(('order.names', (list(names) in (states + consts, folded)) and m.n_parameters() == len(states) + len(consts) and list(m.parameters()) == list(names),
                 'parameters() = %s, expected sorted states + sorted literal constants %s' % (m.parameters(), states + consts)))
     derived = [v.qname() for v in model.variables(const=True) if not v.is_literal()]
     res.append(('order.derived-excluded', not (set(derived) & set(names)), 'derived constants %s among the parameters' % (derived,)))
@@ -182,6 +185,10 @@ def programs(chi_sym, tier):
                     def mk(sp_=sp_, cp_=cp_):
                         return chi_sym.SBMLModel(mech.generated_model(list(sp_), list(cp_)))
                     progs.append(('generated:%s|%s' % (','.join(sp_), ','.join(cp_)), mk))
+    # names that differ in case (a capitalised compartment / constant): whatever collation "alphabetically" uses, it must be the same
+    # for the published names and for the assignment of the vector entries
+    for sp_, cp_ in ((('Plasma', 'gut', 'tissue'), ('Vmax', 'kappa')), (('tissue', 'Plasma', 'gut'), ('kappa', 'Kel', 'Vmax'))):
+        progs.append(('generated:%s|%s' % (','.join(sp_), ','.join(cp_)), (lambda sp_=sp_, cp_=cp_: chi_sym.SBMLModel(mech.generated_model(list(sp_), list(cp_))))))
     return progs
 
 
